@@ -27,7 +27,8 @@ def full_ok_paths(fa):
     if not oks:
         return []
     def nloops(p):
-        return sum(1 for e in p.events if e.kind == "loop" and e.d["what"] == "enter")
+        # loops whose body ran: entered, and not left at once because a `while` condition was false on arrival
+        return sum(1 for e in p.events if e.kind == "loop" and e.d["what"] == "enter") - sum(1 for e in p.events if e.kind == "loop" and e.d["what"] == "exit" and "how" not in e.d)
     m = max(nloops(p) for p in oks)
     return [p for p in oks if nloops(p) == m]
 
@@ -83,6 +84,18 @@ def r_cols_reader(ctx):
                     while is_call_to(base, lambda s: s.endswith(("::iter_mut", "::iter", "::into_iter", "::enumerate"))) and base[2]:
                         base = base[2][0]
                     ok_range = pushed_vec is not None and base == pushed_vec
+                if not ok_range and it is None and col["name"] == "tile_id" and e.loops and pushed_vec is not None:
+                    # `while entries.len() < count { …; entries.push(..) }`: one push per iteration, so it runs exactly `count` times
+                    lid_ = e.loops[-1]
+                    ent_ = iters.get(lid_)
+                    conds = [d for d in p.decisions() if ent_ is not None and d.seq > ent_.seq and d.d["how"] == "if" and d.loops and d.loops[-1] == lid_]
+                    if conds and conds[0].d["outcome"] is True:
+                        c = unmut(conds[0].d["cond"])
+                        lt = c[0] == "bin" and ((c[1] in ("<", "!=") and unmut(c[2]) == ("call", "len", (pushed_vec,), None) and unmut(c[3]) == count_t) or
+                                                 (c[1] in (">", "!=") and unmut(c[3]) == ("call", "len", (pushed_vec,), None) and unmut(c[2]) == count_t))
+                        exits = [x for x in p.events if x.kind == "loop" and x.d["what"] == "exit" and x.d["lid"] == lid_ and x.d.get("how") in ("continue", "break")]
+                        ok_range = lt and not exits
+                        it = c
                 obs.append(Ob("R-COLS", fn, "decode: %s loop runs 0..count" % col["name"], ok_range, "iterates %s" % (tstr(it)[:100] if it else "?"), e.loc()))
             # all transfers through one codec handle over take(length)
             recvs = set(unmut(e.d["args"][0]) for e in rd)
@@ -167,6 +180,16 @@ def _check_id_column(fn, fa, p, rd):
                     run = k
             srcs = set(unmut(s) for s in fa.havoc_src.get(run, ())) if run else set()
             ok_src = run is not None and C(0) in srcs and all(s == C(0) or aff_eq(affine(s), a) for s in srcs)
+            if not ok_src and len(atoms) == 1:
+                # no running variable: the base is read back from the entry pushed last — `entries.last().map_or(0, |prev| prev.tile_id)`
+                (k, c), = atoms.items()
+                vec = unmut(pushes[0].d["args"][0])
+                if c == 1 and is_call_to(k, lambda s: s.endswith("::map_or")) and len(k[2]) == 3 and k[2][1] == C(0):
+                    src, clos = unmut(k[2][0]), k[2][2]
+                    from_last = is_call_to(src, lambda s: s.endswith(("::last", "::last_mut"))) and src[2] and unmut(src[2][0]) == vec
+                    body_ok = clos[0] == "clos" and len(clos[2]) == 1 and unmut(clos[2][0])[0] == "f" and unmut(clos[2][0])[2] == "tile_id" and \
+                        unmut(clos[2][0])[1][0] == "v" and unmut(clos[2][0])[1][1].startswith("clos%s:" % clos[1])
+                    ok_src = from_last and body_ok
             ok = ok_delta and ok_src
             why = "pushed tile_id = %s; running sum sources = %s" % (aff_str(a), [tstr(s)[:60] for s in srcs])
     obs.append(Ob("R-DELTA", fn, "decode: tile_id = running sum of deltas starting at 0", ok, why, rd.loc()))
@@ -226,6 +249,8 @@ def _check_offrule_reader(fn, fa, p, rd):
     prev = _previous_entry(fa, p, cur, lid, facts)
     atoms = [k for k in a[1]]
     uses_prev = prev is not None and a[0] == 0 and a[1] == {("f", prev, "offset"): 1, ("f", prev, "length"): 1}
+    if prev is not None and prev[0] == "prevpair":
+        uses_prev = a[0] == 0 and a[1] == {("proj", prev[1], 0): 1, ("proj", prev[1], 1): 1}
     if uses_prev:
         ok = raw0
         obs.append(Ob("R-OFFRULE", fn, "decode: contiguous arm = prev.offset + prev.length, taken only for index > 0 and raw value 0", ok,
@@ -234,7 +259,8 @@ def _check_offrule_reader(fn, fa, p, rd):
     want = (-1, {val: 1})
     if aff_eq(a, want):
         # the explicit arm must be the exact complement of the contiguous one: the same decision, other outcome
-        compl = _complement_of_contig(fa, p, rd, e, val, cur, lid)
+        # a raw value known to be non-zero is an explicit offset whatever else holds; otherwise the arm must be the exact complement of the contiguous one
+        compl = (("ne", val, 0) in facts) or _complement_of_contig(fa, p, rd, e, val, cur, lid)
         obs.append(Ob("R-OFFRULE", fn, "decode: explicit arm = val − 1, taken exactly when the contiguous condition fails", compl, "stored %s" % aff_str(a), e.loc()))
         return obs, "explicit"
     obs.append(Ob("R-OFFRULE", fn, "decode: stored offset is prev.offset + prev.length or val − 1", False, "stored %s" % aff_str(a), e.loc()))
@@ -261,7 +287,15 @@ def _previous_entry(fa, p, cur, lid, facts):
                 nones = [s for s in srcs if is_call_to(s, lambda x: x == "core::option::Option::None")]
                 if len(somes) >= 1 and len(somes) + len(nones) == len(srcs) and all(_same_entry(s[2][0], cur) for s in somes):
                     return cand if cand == base else cand
+                # … or a loop-carried Option<(offset, length)> of the entry just completed
+                if len(somes) >= 1 and len(nones) >= 1 and len(somes) + len(nones) == len(srcs) and all(_pair_of(s[2][0], cur) for s in somes):
+                    return ("prevpair", base)
     return None
+
+
+def _pair_of(t, cur):
+    t = unmut(t)
+    return isinstance(t, tuple) and t and t[0] == "tup" and len(t[1]) == 2 and unmut(t[1][0]) == ("f", cur, "offset") and unmut(t[1][1]) == ("f", cur, "length")
 
 
 def _same_entry(t, cur):
@@ -417,6 +451,16 @@ def r_cols_writer(ctx):
                         dec, nb, contig = d, both, True
                     elif other is not None:
                         dec, nb, contig = d, other, False
+                if dec is None:
+                    # `next_byte: Option<u64>` that is None exactly for the first entry: knowing it is None is knowing `index == 0` (explicit arm)
+                    for fct, d in path_facts(p, offw.seq):
+                        if fct[0] == "variant" and d.loops and d.loops[-1] == offw.loops[-1] and \
+                                ((fct[2] == "core::option::Option::None" and fct[3] is True) or (fct[2] == "core::option::Option::Some" and fct[3] is False)):
+                            cand = unmut(fct[1])
+                            if cand[0] == "v" and cand[1].startswith("loop"):
+                                srcs_ = [unmut(x) for x in fa.havoc_src.get(cand, ())]
+                                if any(is_call_to(x, lambda y: y == "core::option::Option::None") for x in srcs_) and not any(x[0] == "c" for x in srcs_):
+                                    dec, nb, contig = d, cand, False
                 if dec is None:
                     obs.append(Ob("R-OFFRULE", fn, "encode: condition is `index > 0 && offset == next_byte`", False, "no such decision before the offset write", offw.loc()))
                 else:
